@@ -46,6 +46,7 @@ func init() {
 			rulePreflightNotAgainstRootUnion(c, "R12")
 			ruleResponseHeadersAreNotWiped(c, "R13")
 			ruleReadersWriteNothing(c, "R14", "router")
+			ruleCallersSlicesAreNotRetained(c, "R15", "WithCORS")
 			ruleHeaderNameCase(c, "R12")
 		},
 	})
@@ -70,6 +71,7 @@ func init() {
 			ruleNodeMethodSetReadOnce(c, "R12")
 			ruleResponseHeadersAreNotWiped(c, "R13")
 			ruleReadersWriteNothing(c, "R14", "router")
+			ruleCallersSlicesAreNotRetained(c, "R15", "WithCORS")
 		},
 	})
 }
